@@ -425,8 +425,11 @@ func faultRuns(run *hx.Run) {
 			scs = append(scs, Scenario{Name: fmt.Sprintf("fp%d", k), TreeSeed: s + 20 + k, N: 12, Branchy: 35, Cache: "pruning", OrderSeed: s + k, SetHeadTo: -1, StopMid: true})
 		}
 		scs = append(scs, Scenario{Name: "fdir", TreeSeed: s + 31, Directed: true, OldLen: 9, NewLen: 8, Cache: "archive", OrderSeed: s, SetHeadTo: -1})
+		scs = append(scs, Scenario{Name: "fdirP", TreeSeed: s + 32, Directed: true, OldLen: 9, NewLen: 8, Cache: "pruning", OrderSeed: s + 1, SetHeadTo: -1})
 	} else {
+		// the failing write falls on the SIDE blocks of a branch that later overtakes (and on the overtaking import itself)
 		scs = append(scs, Scenario{Name: "fdir", TreeSeed: s + 31, Directed: true, OldLen: 8, NewLen: 7, Cache: "archive", OrderSeed: s, SetHeadTo: -1})
+		scs = append(scs, Scenario{Name: "fdirP", TreeSeed: s + 32, Directed: true, OldLen: 8, NewLen: 7, Cache: "pruning", OrderSeed: s + 1, SetHeadTo: -1})
 	}
 	self := selfPath()
 	for _, sc := range scs {
@@ -441,11 +444,19 @@ func faultRuns(run *hx.Run) {
 		n := len(ref.Log)
 		scJSON, _ := json.Marshal(sc)
 		refHead, refTies := crashFreeHead(b)
-		// the directed history is long: in the quick tier only the writes of its last operations (the multi-block
-		// reorganisation and Stop) are made to fail
+		// the directed history is long: in the quick tier only the writes from the first block of the competing branch on
+		// are made to fail (its side blocks, the overtaking import with the multi-block reorganisation, Stop)
 		first := 0
 		if sc.Directed && !run.Thorough() {
-			for first < n && ref.Log[first].Op < len(b.Ops)-3 {
+			firstNew := len(b.Ops)
+			for oi, op := range b.Ops {
+				for _, id := range op.Ids {
+					if id > 2+sc.OldLen && oi < firstNew {
+						firstNew = oi
+					}
+				}
+			}
+			for first < n && ref.Log[first].Op < firstNew {
 				first++
 			}
 		}
